@@ -1680,3 +1680,85 @@ func (c *Ctx) innermostFact(root ast.Node, pm map[ast.Node]ast.Node, at ast.Node
 	}
 	return nil
 }
+
+// ---------------------------------------------------------------- LoadProg uses the program only after a successful Load
+
+// ruleLoadGating: between Load returning and LoadProg returning, the Prog is
+// used (disassembled, executed, inspected) only on paths where the error is
+// known to be nil. A failed Load leaves a half-filled Prog — slices sized but
+// not filled, code without its constants — and walking it panics.
+func ruleLoadGating(c *Ctx, r *Report, rule string) {
+	r.rule(rule, 1, "in LoadProg every use of the Prog after the Load call other than returning it is dominated by the test that Load's error is nil")
+	_, fd := c.find("LoadProg")
+	if fd == nil {
+		r.bad(rule, "LoadProg", "function not found", "")
+		return
+	}
+	var loadCall *ast.CallExpr
+	var errObj, progObj types.Object
+	ast.Inspect(fd.Body, func(n ast.Node) bool {
+		as, ok := n.(*ast.AssignStmt)
+		if !ok || len(as.Rhs) != 1 || len(as.Lhs) != 1 {
+			return true
+		}
+		if call, ok := as.Rhs[0].(*ast.CallExpr); ok && c.calleeName(call) == "Prog.Load" {
+			loadCall = call
+			errObj = c.objOfExpr(as.Lhs[0])
+			if sel, ok := call.Fun.(*ast.SelectorExpr); ok {
+				progObj = c.objOfExpr(sel.X)
+			}
+		}
+		return true
+	})
+	if loadCall == nil || errObj == nil || progObj == nil {
+		r.bad(rule, "LoadProg", "the call err := prog.Load(r) was not found", c.pos(fd.Pos()))
+		return
+	}
+	uses, bad := 0, 0
+	pm := parentMap(fd.Body)
+	ast.Inspect(fd.Body, func(n ast.Node) bool {
+		id, ok := n.(*ast.Ident)
+		if !ok || c.objOf(id) != progObj || id.Pos() <= loadCall.End() {
+			return true
+		}
+		// returning the program is not a use
+		if _, isRet := pm[ast.Node(id)].(*ast.ReturnStmt); isRet {
+			return true
+		}
+		uses++
+		okNil := false
+		for _, f := range splitFacts(c.factsAt(fd.Body, id)) {
+			be, isB := stripParens(f.Cond).(*ast.BinaryExpr)
+			if !isB || !isNilIdent(be.Y) || !c.isObj(be.X, errObj) {
+				continue
+			}
+			if (be.Op == token.EQL) == f.Pos {
+				okNil = true
+			}
+		}
+		// the use may sit in the condition that itself tests err first:  err == nil && use(prog)
+		if !okNil {
+			for p := pm[ast.Node(id)]; p != nil; p = pm[p] {
+				be, isB := p.(*ast.BinaryExpr)
+				if !isB || be.Op != token.LAND {
+					continue
+				}
+				if id.Pos() >= be.Y.Pos() {
+					for _, a := range c.nnf(be.X, true, nil).knownAtoms() {
+						if x, isX := a.E.(*ast.BinaryExpr); isX && isNilIdent(x.Y) && c.isObj(x.X, errObj) && (x.Op == token.EQL) == a.Pos {
+							okNil = true
+						}
+					}
+				}
+			}
+		}
+		if !okNil {
+			bad++
+			r.bad(rule, fmt.Sprintf("LoadProg/use#%d", uses), "the Prog is used after Load without the error having been tested for nil: a truncated dump leaves it half-filled and walking it (disassembly, execution) can panic instead of returning the error", c.pos(id.Pos()))
+		}
+		return true
+	})
+	if bad == 0 {
+		r.ok(rule, "LoadProg", fmt.Sprintf("%d uses of the program after Load, all under err == nil", uses))
+	}
+}
